@@ -1024,6 +1024,11 @@ fn gen_c17(rng: &mut Rng) -> Plan {
         });
         plan.callers.push(vec![Op::AlbumArt { uri }]);
     }
+    // nobody listens for notifications (`let (client, _) = connect(..)`, which the documentation
+    // allows): loading pictures must work all the same
+    if !plan.changes.is_empty() && rng.chance(1, 5) {
+        plan.consumer = Consumer::DropAt(rng.below(40));
+    }
     plan
 }
 
